@@ -58,6 +58,10 @@ PickB ==
                     Value("p1", -1, -1, IF b[1] = "uint" THEN SimpleA(ParamLen(b[1], b[2], "lk", b[3], h), {IntV(0), IntV(5), IntV(300)})
                                         ELSE IF b[1] = "int" THEN SimpleA(ParamLen(b[1], b[2], "lk", b[3], h), {IntV(0), IntV(-1), IntV(3), IntV(200), IntV(-129)})
                                         ELSE Simple(ParamLen(b[1], b[2], "lk", b[3], h)))>> \o f))
+    \* a length key at a bit position that makes it reach into the next byte; what follows has no explicit position
+    \/ \E f \in {<<>>, <<Tail8>>} :
+           Pick(D(<<SID, LenKey("lk", -1, 4, Simple(Std("uint", "NONE", 6, TRUE))),
+                    Value("p1", -1, -1, SimpleA(ParamLen("uint", "NONE", "lk", 16, TRUE), {IntV(5), IntV(300)}))>> \o f))
     \* the key is listed first but placed after the value it describes
     \/ Pick(D(<<SID, LenKey("lk", 3, -1, Simple(U8)), Value("p1", 1, -1, SimpleA(ParamLen("uint", "NONE", "lk", 16, TRUE), {IntV(300), IntV(4660)}))>>))
 
